@@ -1,14 +1,14 @@
-import Juniper.Proofs.TreeSlots
+import Juniper.Proofs.TreeSlotsOps
 /-!
 # Slot-level lemmas (C03 "no retained garbage"): the node-level operations
 
 `NodeRep x kvs kids`: the three arrays of the node `x` represent (`Rep`) the entries `kvs` and the
 children `kids`, `x.n` is the number of entries. Every node-level operation of
-`Model/BTreeSlots.lean` maps `NodeRep` to `NodeRep` of the list-level result, provided the zeroing /
+`Model/BTreeSlotsOps.lean` maps `NodeRep` to `NodeRep` of the list-level result, provided the zeroing /
 clearing / shifting statements are present in the source (hypotheses = generated presence facts).
 -/
-namespace Juniper.Proofs.TreeSlots
-open Juniper.Model.BTreeSlots Juniper.Gen
+namespace Juniper.Proofs.TreeSlotsOps
+open Juniper.Model.BTreeSlotsOps Juniper.Gen
 variable {K V C : Type}
 
 /-- the node `x` holds exactly the entries `kvs` and the children `kids` in the live prefixes of its
@@ -420,4 +420,4 @@ theorem rotateLeftNodes_rep {p l r : SNode K V C} {pkvs lkvs rkvs : List (K × V
       · left; simp [h2]
       · right; simp [h2]; omega
 
-end Juniper.Proofs.TreeSlots
+end Juniper.Proofs.TreeSlotsOps
